@@ -130,8 +130,10 @@ with open(os.path.join(ROOT, "README.md"), "w") as f:
             return f"{k}: " + ("input" if "replay input" in v else "no-input" if "no-failing" in v else "—")
         order = ([pid] if pid in ch else []) + [k for k in sorted(ch) if k != pid]
         f.write(f"| {name} | {pid} | {', '.join(short(k) for k in order)} |\n")
-    f.write("\n## Behaviour-preserving rewrites (false-alarm experiment)\n\n| rewrite | alarms on first run | after corrections |\n|---|---|---|\n")
+    f.write("\n## Behaviour-preserving rewrites (false-alarm experiment)\n\n| rewrite | alarms on first run | re-run with the quick tier deepening on changed sources | final machinery |\n|---|---|---|---|\n")
     for name, meta in harmless:
-        f.write(f"| {name} | {', '.join(meta['alarms_on_first_run']) or 'none'} | {', '.join(meta['alarms_with_final_machinery']) or 'none'} |\n")
+        deep = meta.get('alarms_in_the_deepened_run')
+        deep_s = "(first run already deepened)" if deep is None else (', '.join(deep) or 'none')
+        f.write(f"| {name} | {', '.join(meta['alarms_on_first_run']) or 'none'} | {deep_s} | {', '.join(meta['alarms_with_final_machinery']) or 'none'} |\n")
     f.write("\n`input` = VIOLATION with a concrete failing input as replay; `no-input` = VIOLATION … no-failing-input-found (correspondence broken, oracles of that property pass); `—` = that check stayed green (the change does not touch that property's projection).\n")
 print(len(rows), "seeds")
